@@ -176,6 +176,55 @@ pub mod verif_std {
         fn next(&mut self) -> Option<u32> { unimplemented!() }
     }
 
+    // rule A6: an iterator pipeline over u32 items (empty / once / array / iter / chain / map of a field) is replaced
+    // by this opaque iterator, which carries the SEQUENCE of the items the pipeline yields (computed mechanically
+    // from the pipeline text by tools/unit.py iter_pipeline_seq); max / last of it are those of the sequence
+    pub struct VerifU32Iter { pub _p: u8 }
+    pub uninterp spec fn u32_iter_items(it: VerifU32Iter) -> Seq<u32>;
+    impl VerifU32Iter {
+        #[verifier::external_body]
+        pub fn of(Ghost(s): Ghost<Seq<u32>>) -> (r: Self) ensures u32_iter_items(r) == s { unimplemented!() }
+    }
+    impl Iterator for VerifU32Iter {
+        type Item = u32;
+        #[verifier::external_body]
+        fn next(&mut self) -> Option<u32> { unimplemented!() }
+    }
+    pub open spec fn seq_max_opt(s: Seq<u32>) -> Option<u32>
+        decreases s.len()
+    {
+        if s.len() == 0 { None } else {
+            match seq_max_opt(s.drop_last()) {
+                None => Some(s.last()),
+                Some(m) => Some(if s.last() >= m { s.last() } else { m }),
+            }
+        }
+    }
+    pub proof fn lemma_seq_max_ge(s: Seq<u32>, i: int)
+        requires 0 <= i < s.len()
+        ensures seq_max_opt(s) is Some && s[i] <= seq_max_opt(s)->Some_0
+        decreases s.len()
+    {
+        if i < s.len() - 1 { lemma_seq_max_ge(s.drop_last(), i); }
+        else if s.len() > 1 { lemma_seq_max_ge(s.drop_last(), 0); }
+    }
+    pub proof fn lemma_seq_max_in(s: Seq<u32>)
+        requires s.len() > 0
+        ensures seq_max_opt(s) is Some && exists|i: int| 0 <= i < s.len() && s[i] == seq_max_opt(s)->Some_0
+        decreases s.len()
+    {
+        if s.len() > 1 {
+            lemma_seq_max_in(s.drop_last());
+            let j = choose|j: int| 0 <= j < s.drop_last().len() && s.drop_last()[j] == seq_max_opt(s.drop_last())->Some_0;
+            assert(s[j] == s.drop_last()[j]);
+            assert(s[s.len() - 1] == s.last());
+        } else { assert(s[0] == s.last()); }
+    }
+    pub broadcast axiom fn ax_u32_iter_max(it: VerifU32Iter)
+        ensures #[trigger] iter_max_spec(it) == seq_max_opt(u32_iter_items(it));
+    pub broadcast axiom fn ax_u32_iter_last(it: VerifU32Iter)
+        ensures #[trigger] iter_last_spec(it) == (if u32_iter_items(it).len() == 0 { None::<u32> } else { Some(u32_iter_items(it).last()) });
+
     // `&v[..]` is specified by vstd as a full subrange
     pub broadcast proof fn subrange_full<T>(s: Seq<T>)
         ensures #[trigger] s.subrange(0, s.len() as int) == s
@@ -217,6 +266,6 @@ pub mod verif_std {
     { if a@ == b@ { assert(a =~= b); } }
     pub broadcast group verif_std_axioms {
         iter_seq_vec, iter_seq_arr4, iter_seq_refarr4, iter_seq_refvec, iter_seq_slice,
-        le32_len, lei32_len, le32_inj, lei32_inj, be32_len, bei32_len, arr_of_view, arr_ref_of_view, arr_ext, vec_of_view, subrange_full,
+        le32_len, lei32_len, le32_inj, lei32_inj, be32_len, bei32_len, ax_u32_iter_max, ax_u32_iter_last, arr_of_view, arr_ref_of_view, arr_ext, vec_of_view, subrange_full,
     }
 }
